@@ -60,7 +60,7 @@ update_buffer skips empty buffers.  Observation (compile time, no rule): apply_d
 cannot be instantiated (Buffer::begin() iterates OSMEntity, DiffIterator static_asserts OSMObject).
 """
 from ..c20_util import (Oracle, Shape, split_ref, strip_const, expected_calls, xroot, has_explicit_cast, name_of, enum_paths,
-                        must_pass, may_repeat, std_get_index, normal_exit_avoiding, resolve_alias)
+                        must_pass, may_repeat, std_get_index, normal_exit_avoiding, resolve_alias, abnormal, carriers)
 from ..flow import guards_of, path_search
 
 KNOWN = []
@@ -89,154 +89,303 @@ def _exit_t(e):
 
 # ================================================================================================ DISPATCH
 
-def _case_enumerator(fn, O, blk):
-    lab = blk.get('label') or {}
-    if 'case' not in lab:
+def _single_init(fn, d):
+    """initialiser of a local variable that is written nowhere else (a named local for a sub-expression), else None"""
+    init = None
+    for n in fn.all_nodes():
+        k = n.get('k')
+        if k == 'decl':
+            for v in n['vars']:
+                if v['d'] == d:
+                    if not isinstance(v.get('init'), int) or init is not None:
+                        return None
+                    init = v['init']
+        elif k == 'assign':
+            l = fn.sn(n['lhs'])
+            if l is not None and l.get('k') == 'var' and l.get('d') == d:
+                return None
+        elif k == 'unop' and n.get('op') in ('++', '--'):
+            s = fn.sn(n['sub'])
+            if s is not None and s.get('k') == 'var' and s.get('d') == d:
+                return None
+    return init
+
+
+def _is_type_expr(fn, nid, type_callee, depth=0):
+    """the expression is <item parameter>.type() -- directly or through a named local initialised with it"""
+    n = fn.sn(nid)
+    if n is None or depth > 6:
+        return False
+    if n.get('k') == 'call' and n.get('q') == type_callee and n.get('recv') is not None:
+        return (xroot(fn, n['recv'], free_calls=False) or (None, None))[:2] == ('param', 0)
+    if n.get('k') == 'var' and n.get('vk') == 'local':
+        init = _single_init(fn, n['d'])
+        return init is not None and _is_type_expr(fn, init, type_callee, depth + 1)
+    if n.get('k') == 'cast':
+        return False
+    return False
+
+
+def _eval_cond(fn, nid, type_callee, value, depth=0):
+    """three-valued (True / False / None = unknown) value of a branch condition when the item's type is `value`"""
+    n = fn.sn(nid)
+    if n is None or depth > 30:
         return None
-    v = fn.const_value(lab['case'])
-    if v is None or v not in O.enum_by_value:
-        raise Shape('%s: case label %s is not an item_type enumerator' % (fn.full, fn.expr(lab['case'])))
-    return O.enum_by_value[v]
+    k = n.get('k')
+    if k == 'binop' and n['op'] in ('&&', '||'):
+        a = _eval_cond(fn, n['lhs'], type_callee, value, depth + 1)
+        b = _eval_cond(fn, n['rhs'], type_callee, value, depth + 1)
+        if n['op'] == '&&':
+            if a is False or b is False:
+                return False
+            return True if (a is True and b is True) else None
+        if a is True or b is True:
+            return True
+        return False if (a is False and b is False) else None
+    if k == 'unop' and n['op'] == '!':
+        v = _eval_cond(fn, n['sub'], type_callee, value, depth + 1)
+        return None if v is None else (not v)
+    p = _cmp_parts(fn, nid)
+    if p is not None:
+        op, l, r = p
+        for a, b in ((l, r), (r, l)):
+            if _is_type_expr(fn, a, type_callee):
+                c = fn.const_value(b)
+                if c is not None:
+                    return (value == c) if op == '==' else (value != c)
+        return None
+    if k == 'var' and n.get('vk') == 'local':
+        init = _single_init(fn, n['d'])
+        if init is not None:
+            return _eval_cond(fn, init, type_callee, value, depth + 1)
+        return None
+    return None
 
 
-def _switch_block(fn):
-    sw = [b for b in fn.blocks.values() if b.get('termcls') == 'SwitchStmt']
-    if len(sw) != 1 or len(fn.switches) != 1:
-        raise Shape('%s: expected exactly one switch statement, found %d' % (fn.full, len(sw)))
-    return sw[0]
-
-
-def _handler_calls_on_path(fn, path, hidx):
+def _paths_for_type(fn, O, type_callee, value):
+    """Block paths entry..end that are feasible when the item's type is `value`: switch statements on the item type and
+    ==/!= tests of it against enumerators are decided, every other branch is followed both ways.  Loops -> Shape."""
     out = []
-    for b in path:
+    stack = [(fn.entry, (fn.entry,))]
+    decided = False
+    while stack:
+        b, path = stack.pop()
+        blk = fn.blocks[b]
+        if b == fn.exit:
+            out.append(list(path))
+            if len(out) > 2000:
+                raise Shape('%s: too many paths' % fn.full)
+            continue
+        succs = blk['succs']
+        nxt = None
+        if blk.get('termcls') == 'SwitchStmt':
+            if not _is_type_expr(fn, blk['cond'], type_callee):
+                raise Shape('%s: switch on `%s`, which is not the item type' % (fn.full, fn.expr(blk['cond'])))
+            decided = True
+            match = dflt = after = None
+            for s in succs:
+                if s is None:
+                    continue
+                lab = fn.blocks[s].get('label') or {}
+                if 'case' in lab:
+                    v = fn.const_value(lab['case'])
+                    if v is None:
+                        raise Shape('%s: case label %s is not constant' % (fn.full, fn.expr(lab['case'])))
+                    if v == value:
+                        match = s
+                elif lab.get('default'):
+                    dflt = s
+                else:
+                    after = s
+            nxt = [match if match is not None else (dflt if dflt is not None else after)]
+            if nxt[0] is None:
+                # all enumerators have a case and this value is none of them: not a value of the enum
+                continue
+        elif 'cond' in blk and len(succs) == 2:
+            v = _eval_cond(fn, blk['cond'], type_callee, value)
+            if v is None:
+                nxt = [s for s in succs if s is not None]
+            else:
+                decided = True
+                s = succs[0] if v else succs[1]
+                nxt = [s] if s is not None else []
+        else:
+            nxt = [s for s in succs if s is not None]
+        if not nxt:
+            out.append(list(path))  # noreturn end
+            continue
+        for s in nxt:
+            if s in path:
+                raise Shape('%s: loop inside a dispatch function' % fn.full)
+            stack.append((s, path + (s,)))
+    return out, decided
+
+
+def _handler_calls(fb, fn, blocks, hidx, iidx, depth=0):
+    """Callback calls on the handler along a block path, in execution order; calls of library helpers that receive the
+    handler are treated as inlined.  Each record: dict(fn=context function, n=call node, iidx=index of the item
+    parameter in that context (or None), via=[(caller fn, call node, item argument id)...])."""
+    out = []
+    for b in blocks:
         for e in fn.blocks[b]['elems']:
             n = fn.nodes[e]
-            if n.get('k') == 'call' and n.get('recv') is not None and 'q' in n:
+            if n.get('k') != 'call' or 'q' not in n:
+                continue
+            if n.get('recv') is not None:
                 r = xroot(fn, n['recv'])
-                if r is not None and r[0] == 'param' and r[1] == hidx:
-                    out.append(n)
+                if r is not None and r[:2] == ('param', hidx):
+                    out.append({'fn': fn, 'n': n, 'iidx': iidx, 'via': []})
+                    continue
+            args = n.get('args', [])
+            roots = [(xroot(fn, a) or (None, None))[:2] for a in args]
+            if ('param', hidx) not in roots or depth >= 3:
+                continue
+            cal = fb.by_usr.get(n.get('u'), [])
+            cal = [g for g in cal if g.has_cfg and len(g.params) == len(args)]
+            if not cal:
+                continue
+            g = cal[0]
+            h2 = roots.index(('param', hidx))
+            i2 = roots.index(('param', iidx)) if (iidx is not None and ('param', iidx) in roots) else None
+            seqs = []
+            for p in enum_paths(g, g.entry):
+                if any(abnormal(g, x) for bb in p for x in g.blocks[bb]['elems']):
+                    continue
+                seqs.append(_handler_calls(fb, g, p, h2, i2, depth + 1))
+            sig = {tuple(name_of(r['n']['q']) for r in s) for s in seqs}
+            if len(sig) > 1:
+                raise Shape('%s: helper %s calls different callbacks on different paths' % (fn.full, g.full))
+            if seqs:
+                for r in seqs[0]:
+                    r['via'] = [(fn, n, args[i2] if i2 is not None else None)] + r['via']
+                    out.append(r)
     return out
 
 
+def _path_outcome(fn, path):
+    """'throw-std' | 'throw-other' | 'abort' | 'normal'"""
+    for b in path:
+        for e in fn.blocks[b]['elems']:
+            n = fn.nodes[e]
+            if n.get('k') == 'throw':
+                return 'throw-std' if 'std::exception' in n.get('bases', []) else 'throw-other'
+            if abnormal(fn, e):
+                return 'abort'
+    return 'normal'
+
+
+def _check_item_arg(O, ctx, n, iidx, want_t, enumerator):
+    """(ok, description) for the argument of one callback call in context function ctx (item parameter index iidx)."""
+    if iidx is None:
+        return False, 'is made in a helper that does not receive the item'
+    p = ctx.params[iidx]
+    item_cls, item_const, _r = split_ref(p['tC'])
+    a = resolve_alias(ctx, n['args'][0])
+    root = xroot(ctx, n['args'][0], free_calls=False)
+    from_item = root is not None and root[:2] == ('param', iidx)
+    tgt, tconst, _r2 = split_ref(want_t)
+    if a is not None and a.get('k') == 'cast':
+        want_here = ('const ' if item_const else '') + tgt + ' &'
+        return from_item and a.get('toC') == want_here, 'casts the item to `%s`' % a.get('toC')
+    if a is not None and a.get('k') == 'var':
+        return from_item and (item_cls == tgt or O.is_derived(item_cls, tgt)), 'passes the item uncast (static type %s)' % item_cls
+    return False, 'passes `%s`' % ctx.expr(n['args'][0])
+
+
+def _check_via(O, via, enumerator, outer_const):
+    """the item handed to an inlined helper must be the item parameter, uncast or cast to a class accepting the type"""
+    for (cf, cn, arg) in via:
+        if arg is None:
+            return False, 'the helper %s does not receive the item' % name_of(cn.get('q', '?'))
+        a = resolve_alias(cf, arg)
+        if a is not None and a.get('k') == 'cast':
+            cls, cst, _r = split_ref(a.get('toC', ''))
+            acc = O.compat(cls)
+            if acc is None or enumerator not in acc or (outer_const and not cst):
+                return False, 'the item is handed to %s as `%s`' % (name_of(cn.get('q', '?')), a.get('toC'))
+    return True, ''
+
+
 def dispatch_function(fn, R, O, table, param_class_of, cast_type_of, type_callee, rule_prefix, key0, static_accepts):
-    """Decide one dispatch function (switch over item type) against the callback table.
+    """Decide one dispatch function against the callback table by evaluating its branch structure (switch or if-chain on
+    the item type, named locals, inlined helpers) for every enumerator of item_type.
     table: {callback: class}; param_class_of(cb) -> class deciding compatibility; cast_type_of(cb, const) -> canonical
-    reference type the argument must be cast to; static_accepts: enumerators that must have an explicit case."""
+    reference type of the argument; static_accepts: enumerators the item's static type (or the table) covers."""
+    fb = O.fb
     r1, r2, r3 = (rule_prefix + s for s in ('1-case-calls', '2-cast-target', '3-exhaustive'))
-    sw = _switch_block(fn)
     item_const = split_ref(fn.params[0]['tC'])[1]
-    item_cls = split_ref(fn.params[0]['tC'])[0]
-    # --- switch condition
-    c = fn.sn(sw['cond'])
-    cond_ok = (c is not None and c.get('k') == 'call' and c.get('q') == type_callee and
-               (xroot(fn, c['recv']) or (None,))[:2] == ('param', 0))
-    # --- calls before the switch (entry .. switch block) belong to every case
-    pre = []
-    b = fn.entry
-    seen = set()
-    while b != sw['id']:
-        if b in seen or len(fn.succs(b)) != 1:
-            raise Shape('%s: control flow before the switch is not straight-line' % fn.full)
-        seen.add(b)
-        pre.append(b)
-        b = fn.succs(b)[0]
-    pre.append(sw['id'])
-    labelled = {}
-    default_blk = None
-    for s in sw['succs']:
-        if s is None:
-            continue
-        blk = fn.blocks[s]
-        lab = blk.get('label') or {}
-        if lab.get('default'):
-            default_blk = s
-            continue
-        e = _case_enumerator(fn, O, blk)
-        if e is None:
-            if fn.switches[0].get('default'):
-                raise Shape('%s: switch successor B%d is neither a case nor the default' % (fn.full, s))
-            continue  # the block after a switch without default
-        if e in labelled:
-            raise Shape('%s: duplicate case %s' % (fn.full, e))
-        labelled[e] = s
-    # --- D1 / D2 per labelled enumerator
-    for e, s in sorted(labelled.items()):
+    d3 = []
+    any_decided = False
+    for e, value in sorted(O.enum_by_name.items(), key=lambda kv: kv[1]):
+        paths, decided = _paths_for_type(fn, O, type_callee, value)
+        any_decided = any_decided or decided
         want = expected_calls(O, table, param_class_of, e)
         key = '%s#case %s' % (key0, e)
-        site = fn.loc(fn.blocks[s]['label']['case'])
-        paths = enum_paths(fn, s)
+        normal = [p for p in paths if _path_outcome(fn, p) == 'normal']
+        other = [(p, _path_outcome(fn, p)) for p in paths if _path_outcome(fn, p) != 'normal']
+        recs = [_handler_calls(fb, fn, p, 1, 0) for p in normal]
+        has_calls = any(r for r in recs)
+        if e not in static_accepts:
+            # not a type the item's static class can have: must be rejected with a std::exception -- or be dispatched correctly
+            if normal and not has_calls:
+                d3.append('items of type %s are silently ignored (no callback, no exception)' % e)
+                continue
+            if any(o != 'throw-std' for (_p, o) in other):
+                d3.append('items of type %s end in %s' % (e, sorted({o for (_p, o) in other})))
+            if not normal:
+                continue
+        site = fn.site
+        for r in recs:
+            if r:
+                site = r[0]['fn'].loc(r[0]['n']['id'])
+                break
+        if not normal:
+            R.bad(r1, key, fn.site, 'items of type %s are rejected (%s) instead of being dispatched to %s' %
+                  (e, sorted({o for (_p, o) in other}), want or 'no callback'))
+            for cb in want:
+                R.bad(r2, '%s#%s' % (key, cb), fn.site, 'item_type::%s is not dispatched, so the call of %s(%s) is missing' %
+                      (e, cb, cast_type_of(cb, item_const)))
+            d3.append('%s is covered by the item\'s static type / the callback table but is not dispatched' % e)
+            continue
         ok = True
         msg = None
-        for p in paths:
-            calls = _handler_calls_on_path(fn, pre + p, 1)
-            got = [name_of(n['q']) for n in calls]
+        for r in recs:
+            got = [name_of(x['n']['q']) for x in r]
             if got != want:
                 ok = False
-                msg = ('case item_type::%s calls %s on the handler; the callbacks whose parameter class accepts %s are %s '
+                msg = ('for item_type::%s the handler receives %s; the callbacks whose parameter class accepts %s are %s '
                        '(in that order)' % (e, got or 'nothing', e, want or 'none'))
                 break
+        if ok and other:
+            ok = False
+            msg = 'for item_type::%s some path ends in %s' % (e, sorted({o for (_p, o) in other}))
         R.check(ok, r1, key, site, msg, detail={'expected': want, 'paths': len(paths)})
-        done = set()
-        called = {name_of(n['q']) for p in paths for n in _handler_calls_on_path(fn, pre + p, 1)}
+        called = {name_of(x['n']['q']) for r in recs for x in r}
         for cb in want:
             if cb not in called:
-                # keeps the instance (one per callback the oracle requires) alive when the call was dropped
-                R.bad(r2, '%s#%s' % (key, cb), site, 'case item_type::%s: the required call of %s(%s) is missing' %
+                R.bad(r2, '%s#%s' % (key, cb), site, 'item_type::%s: the required call of %s(%s) is missing' %
                       (e, cb, cast_type_of(cb, item_const)))
-        for p in paths:
-            for n in _handler_calls_on_path(fn, pre + p, 1):
+        done = set()
+        for r in recs:
+            for x in r:
+                n, ctx = x['n'], x['fn']
                 cb = name_of(n['q'])
-                if cb not in table or n['id'] in done:
+                if cb not in table or (id(ctx), n['id']) in done:
                     continue
-                done.add(n['id'])
+                done.add((id(ctx), n['id']))
                 k2 = '%s#%s' % (key, cb)
                 if len(n.get('args', [])) != 1:
-                    R.bad(r2, k2, fn.loc(n['id']), 'callback %s is called with %d arguments' % (cb, len(n.get('args', []))))
+                    R.bad(r2, k2, ctx.loc(n['id']), 'callback %s is called with %d arguments' % (cb, len(n.get('args', []))))
                     continue
-                a = resolve_alias(fn, n['args'][0])
                 want_t = cast_type_of(cb, item_const)
-                root = xroot(fn, n['args'][0], free_calls=False)
-                from_item = root is not None and root[:2] == ('param', 0)
-                if a is not None and a.get('k') == 'cast':
-                    good = from_item and a.get('toC') == want_t
-                    what = 'casts the item to `%s`' % a.get('toC')
-                elif a is not None and a.get('k') == 'var':
-                    tgt = split_ref(want_t)[0]
-                    good = from_item and (item_cls == tgt or O.is_derived(item_cls, tgt))
-                    what = 'passes the item uncast (static type %s)' % item_cls
-                else:
-                    good = False
-                    what = 'passes `%s`' % fn.expr(n['args'][0])
-                R.check(good, r2, k2, fn.loc(n['id']),
-                        'case item_type::%s: call of %s %s; required is the item parameter as `%s`' % (e, cb, what, want_t))
-    # --- enumerators that must have a case but have none: the per-case instances stay alive (and are violated)
-    for e in sorted(x for x in static_accepts if x not in labelled):
-        want = expected_calls(O, table, param_class_of, e)
-        key = '%s#case %s' % (key0, e)
-        R.bad(r1, key, fn.site, 'there is no case item_type::%s: the callbacks %s are never called for such items' % (e, want or 'none'))
-        for cb in want:
-            R.bad(r2, '%s#%s' % (key, cb), fn.site, 'case item_type::%s is missing, so is the call of %s(%s)' % (e, cb, cast_type_of(cb, item_const)))
-    # --- D3
-    missing = sorted(x for x in static_accepts if x not in labelled)
-    unl = sorted(x for x in O.enum_by_name if x not in labelled)
-    msgs = []
-    if not cond_ok:
-        msgs.append('the switch condition `%s` is not %s() of the item parameter' % (fn.expr(sw['cond']), type_callee))
-    if missing:
-        msgs.append('no explicit case for %s although the item\'s static type / the callback table covers it' % ', '.join(missing))
-    if unl:
-        if default_blk is None:
-            msgs.append('enumerators %s have no case and there is no default' % ', '.join(unl))
-        else:
-            throws = {n['id'] for n in fn.all_nodes() if n.get('k') == 'throw' and 'std::exception' in n.get('bases', [])}
-            w = path_search(fn, default_blk, _exit_t, lambda x: x in throws, from_block_start=True)
-            if w is not None:
-                msgs.append('the default branch (taken for %s) can reach the end of the function without throwing a '
-                            'std::exception' % ', '.join(unl))
-            pre_d = _handler_calls_on_path(fn, [default_blk], 1)
-            if pre_d:
-                msgs.append('the default branch calls %s on the handler' % [name_of(n['q']) for n in pre_d])
-    R.check(not msgs, r3, key0, fn.site, '; '.join(msgs), detail={'cases': sorted(labelled), 'default': default_blk is not None})
+                good, what = _check_item_arg(O, ctx, n, x['iidx'], want_t, e)
+                if good and x['via']:
+                    good, what = _check_via(O, x['via'], e, item_const)
+                R.check(good, r2, k2, ctx.loc(n['id']),
+                        'item_type::%s: call of %s %s; required is the item parameter as `%s`' % (e, cb, what, want_t))
+    if not any_decided:
+        d3.append('no branch of the function depends on %s() of the item parameter' % type_callee)
+    R.check(not d3, r3, key0, fn.site, '; '.join(d3))
 
 
 def dispatch_rules(fb, R, O):
@@ -330,6 +479,34 @@ def _entity_callbacks(O):
     return out
 
 
+def _forwards_to_functor(fb, fn, depth):
+    """fn passes its first parameter, uncast, to operator() of *this exactly once on every path -- directly or through
+    a member helper that does.  Returns (ok, description of what was found)."""
+    calls = [n for n in fn.all_nodes() if n.get('k') == 'call' and (n.get('op') == '()' or name_of(n.get('q', '')) == 'operator()')]
+    calls = [n for n in calls if n.get('recv') is not None and (xroot(fn, n['recv']) or (None,))[0] == 'this']
+    if not calls and depth < 3 and fn.cls:
+        helpers = [n for n in fn.all_nodes() if n.get('k') == 'call' and n.get('rcls') == fn.cls and 'u' in n and
+                   (n.get('recv') is None or (xroot(fn, n['recv'], free_calls=False) or (None,))[0] == 'this')]
+        if len(helpers) == 1:
+            h = helpers[0]
+            a = h.get('args', [])
+            r = xroot(fn, a[0], free_calls=False) if len(a) == 1 else None
+            if (r is not None and r[:2] == ('param', 0) and not has_explicit_cast(fn, a[0]) and must_pass(fn, [h['id']]) and
+                    not may_repeat(fn, [h['id']])):
+                for g in fb.by_usr.get(h['u'], []):
+                    if g.clsT == fn.clsT and g.has_cfg:
+                        return _forwards_to_functor(fb, g, depth + 1)
+        return False, 'no call of operator()'
+    if len(calls) != 1:
+        return False, '%d calls of operator()' % len(calls)
+    c = calls[0]
+    a = c.get('args', [])
+    r = xroot(fn, a[0], free_calls=False) if len(a) == 1 else None
+    ok = (r is not None and r[:2] == ('param', 0) and not has_explicit_cast(fn, a[0]) and
+          must_pass(fn, [c['id']]) and not may_repeat(fn, [c['id']]))
+    return ok, fn.expr(c['id'])
+
+
 def wrapper_rules(fb, R, O):
     ent = _entity_callbacks(O)
     recs = fb.records_named(WRAP)
@@ -359,18 +536,8 @@ def wrapper_rules(fb, R, O):
         if fn.cls != WRAP or fn.is_lambda or fn.name not in ent or len(fn.params) != 1:
             continue
         key = '%s::%s(%s)#forwards' % (WRAP, fn.name, fn.params[0]['tC'])
-        calls = [n for n in fn.all_nodes() if n.get('k') == 'call' and n.get('op') == '()' or
-                 (n.get('k') == 'call' and name_of(n.get('q', '')) == 'operator()')]
-        calls = [n for n in calls if n.get('recv') is not None and (xroot(fn, n['recv']) or (None,))[0] == 'this']
-        ok = len(calls) == 1
-        msg = 'calls operator() %d times' % len(calls)
-        if ok:
-            c = calls[0]
-            a = c.get('args', [])
-            r = xroot(fn, a[0], free_calls=False) if len(a) == 1 else None
-            ok = (r is not None and r[:2] == ('param', 0) and not has_explicit_cast(fn, a[0]) and
-                  must_pass(fn, [c['id']]) and not may_repeat(fn, [c['id']]))
-            msg = ('must call operator() exactly once on every path with its own parameter (found %s)' % fn.expr(c['id']))
+        ok, found = _forwards_to_functor(fb, fn, 0)
+        msg = 'must call operator() exactly once on every path with its own parameter (found %s)' % found
         R.check(ok, 'W1-wrapper-forwards-own-parameter', key, fn.site, 'wrapper_handler::%s %s' % (fn.name, msg))
 
 
@@ -393,8 +560,27 @@ def _cfg_order(fn, ids):
     return all(i in pos for i in ids) and all(fn.elem_dominates(a, b) for a, b in zip(ids, ids[1:]))
 
 
+def _through_locals(fn, nid, hops=0):
+    """node id with copies (single-argument constructions) and named locals (`auto first = begin(c);`, written nowhere
+    else) replaced by what they are made from"""
+    n = fn.sn(nid)
+    while n is not None and hops < 8:
+        hops += 1
+        if n.get('k') == 'construct' and len(n.get('args', [])) == 1:
+            nid = n['args'][0]
+        elif n.get('k') == 'var' and n.get('vk') == 'local':
+            init = _single_init(fn, n['d'])
+            if init is None:
+                break
+            nid = init
+        else:
+            break
+        n = fn.sn(nid)
+    return nid
+
+
 def _roots(fn, args):
-    return [(xroot(fn, a) or (None, None))[:2] for a in args]
+    return [(xroot(fn, _through_locals(fn, a)) or (None, None))[:2] for a in args]
 
 
 def apply_rules(fb, R, O):
@@ -520,20 +706,22 @@ def apply_rules(fb, R, O):
                 msgs.append('apply_item can be reached again without advancing `it`')
         R.check(not msgs, 'A2-apply_impl-item-loop', 'osmium::apply_impl#item-loop', fn.site, '; '.join(msgs))
         msgs = []
-        if len(flushes) != 1:
-            msgs.append('expected exactly one apply_flush call, found %d' % len(flushes))
+        if not flushes:
+            msgs.append('apply_flush is never called')
         else:
-            fl = flushes[0]
-            if any(fn.in_range(fl['id'], l['b'], l['e']) for l in fn.loops):
+            ids = [f['id'] for f in flushes]
+            if any(fn.in_range(i, l['b'], l['e']) for i in ids for l in fn.loops):
                 msgs.append('apply_flush is called inside the item loop (flush once per item instead of once at the end)')
-            if not must_pass(fn, [fl['id']]):
+            if not must_pass(fn, ids):
                 msgs.append('a path reaches the end of apply_impl without apply_flush')
-            if may_repeat(fn, [fl['id']]):
+            if may_repeat(fn, ids):
                 msgs.append('apply_flush can execute more than once')
-            if _roots(fn, fl.get('args', [])) != hp:
-                msgs.append('apply_flush must receive the handlers in pack order; found %s' % fn.expr(fl['id']))
-            if items and path_search(fn, fl['id'], lambda e: e == items[0]['id'], lambda e: False) is not None:
-                msgs.append('an item can be dispatched after the flush')
+            for fl in flushes:
+                if _roots(fn, fl.get('args', [])) != hp:
+                    msgs.append('apply_flush must receive the handlers in pack order; found %s' % fn.expr(fl['id']))
+                if items and path_search(fn, fl['id'], lambda e: e == items[0]['id'], lambda e: False) is not None:
+                    msgs.append('an item can be dispatched after the flush')
+            msgs = sorted(set(msgs))
         R.check(not msgs, 'A2-apply_impl-flush-once-after-loop', 'osmium::apply_impl#flush', fn.site, '; '.join(msgs))
     # ---- A3 apply overloads
     fns = fb.fns('osmium::apply')
@@ -572,7 +760,7 @@ def apply_rules(fb, R, O):
             else:
                 nm = []
                 for a in args[:2]:
-                    x = fn.sn(a)
+                    x = fn.sn(_through_locals(fn, a))
                     hops = 0
                     while x is not None and x.get('k') == 'construct' and len(x.get('args', [])) == 1 and hops < 5:
                         x = fn.sn(x['args'][0])
@@ -625,102 +813,149 @@ def _conjuncts(fn, nid, sense=True):
     return [(nid, sense)]
 
 
+def _resolve_bool(fb, fn, nid, sense, depth=0):
+    """Follow `!`, named bool locals and single-return boolean helper members (called on *this) down to the deciding
+    expression: returns (function, node id, sense)."""
+    n = fn.sn(nid)
+    if n is None or depth > 8:
+        return fn, nid, sense
+    k = n.get('k')
+    if k == 'unop' and n.get('op') == '!':
+        return _resolve_bool(fb, fn, n['sub'], not sense, depth + 1)
+    if k == 'var' and n.get('vk') == 'local':
+        init = _single_init(fn, n['d'])
+        if init is not None:
+            return _resolve_bool(fb, fn, init, sense, depth + 1)
+    if k == 'call' and 'u' in n and n.get('op') is None and not n.get('args') and fn.cls and n.get('rcls') == fn.cls:
+        if n.get('recv') is None or (xroot(fn, n['recv'], free_calls=False) or (None,))[0] == 'this':
+            for g in fb.by_usr.get(n['u'], []):
+                if g.clsT != fn.clsT or not g.has_cfg or g.loops:
+                    continue
+                rets = [x for x in g.all_nodes() if x.get('k') == 'return' and 'sub' in x]
+                if len(rets) == 1:
+                    return _resolve_bool(fb, g, rets[0]['sub'], sense, depth + 1)
+    return fn, nid, sense
+
+
 def itemiterator_rules(fb, R, O):
-    adv = fb.fns(ITIT + '::advance_to_next_item_of_right_type')
+    TIC = 'osmium::memory::detail::type_is_compatible'
+
+    def is_step(g, n):
+        # data = <item at data>->next()
+        if n.get('k') != 'assign':
+            return False
+        r = g.sn(n['rhs'])
+        if r is None or r.get('k') != 'call' or r.get('q') != 'osmium::memory::Item::next' or r.get('recv') is None:
+            return False
+        l = xroot(g, n['lhs'], free_calls=False)
+        return l is not None and l[0] == 'field' and xroot(g, r['recv'], free_calls=False) == l
+
+    def step_field(g, nid, depth=0):
+        n = g.nodes[nid]
+        if is_step(g, n):
+            return xroot(g, n['lhs'], free_calls=False)[1]
+        for h in fb.by_usr.get(n.get('u'), []):
+            if h.clsT == g.clsT and depth < 3:
+                for x in carriers(fb, h, is_step):
+                    return step_field(h, x, depth + 1)
+        return None
+
+    # the type filter = the member function(s) with a loop that steps from item to item (whatever it is called)
+    adv = []
+    for f in fb.functions:
+        if f.cls == ITIT and not f.is_lambda and f.has_cfg and f.loops:
+            st = [x for x in carriers(fb, f, is_step) if any(f.in_range(x, l['b'], l['e']) for l in f.loops)]
+            if st:
+                adv.append((f, st))
     if not adv:
-        R.broken('ItemIterator::advance_to_next_item_of_right_type not instantiated')
+        R.broken('no member function of ItemIterator loops over `data = item->next()`: the type filter cannot be located')
         return
-    for fn in adv:
-        key = ITIT + '::advance_to_next_item_of_right_type#skip-predicate'
+    filter_usrs = {f.usr for (f, _s) in adv}
+
+    def enters_filter(g, n):
+        return n.get('k') == 'call' and n.get('u') in filter_usrs
+
+    for fn, st in adv:
+        key = '%s::%s#skip-predicate' % (ITIT, 'advance_to_next_item_of_right_type' if len(adv) == 1 else fn.name)
         tmember = strip_const(fn.cls_targs[0]) if fn.cls_targs else None
         msgs = []
-        # the data member is the one assigned from Item::next()
-        steps = []
-        for n in fn.all_nodes():
-            if n.get('k') == 'assign':
-                r = fn.sn(n['rhs'])
-                if r is not None and r.get('k') == 'call' and r.get('q') == 'osmium::memory::Item::next':
-                    l = xroot(fn, n['lhs'], free_calls=False)
-                    rr = xroot(fn, r['recv'], free_calls=False)
-                    if l is not None and l[0] == 'field' and rr == l:
-                        steps.append((n, l[1]))
-        if len(fn.loops) != 1 or len(steps) != 1:
-            R.broken('%s: expected one loop with one `data = item->next()` step (loops=%d, steps=%d)' % (fn.full, len(fn.loops), len(steps)))
+        if len(fn.loops) != 1 or len(st) != 1 or step_field(fn, st[0]) is None:
+            R.broken('%s: expected one loop with one `data = item->next()` step (loops=%d, steps=%d)' % (fn.full, len(fn.loops), len(st)))
             continue
-        step, dataf = steps[0]
-        lp = fn.loops[0]
-        if not fn.in_range(step['id'], lp['b'], lp['e']):
-            msgs.append('the step to the next item is not inside the loop')
-        gs = guards_of(fn, step['id'])
-        lits = []
-        for (c, sense, _b) in gs:
-            lits.append((c, sense))
+        step, dataf = fn.nodes[st[0]], step_field(fn, st[0])
         neq_end = False
-        filt = None
-        for (c, sense) in lits:
-            x = fn.sn(c)
+        filt = None          # (function, call node) of the deciding type_is_compatible call with the right sense
+        filt_any = None
+        for (c, sense, _b) in guards_of(fn, step['id']):
+            g, x_id, s2 = _resolve_bool(fb, fn, c, sense)
+            x = g.sn(x_id)
             if x is None:
                 continue
-            if x.get('k') == 'binop' and x['op'] in ('!=', '=='):
-                a, b = xroot(fn, x['lhs'], free_calls=False), xroot(fn, x['rhs'], free_calls=False)
-                if ('field', dataf) in (a, b) and a != b and a and b and a[0] == b[0] == 'field' and (x['op'] == '!=') == bool(sense):
+            p = _cmp_parts(g, x_id)
+            if p is not None:
+                a, b = xroot(g, p[1], free_calls=False), xroot(g, p[2], free_calls=False)
+                if ('field', dataf) in (a, b) and a != b and a and b and a[0] == b[0] == 'field' and (p[0] == '!=') == bool(s2):
                     neq_end = True
-            if x.get('k') == 'call' and x.get('q') == 'osmium::memory::detail::type_is_compatible' and not sense:
-                filt = x
+            if x.get('k') == 'call' and x.get('q') == TIC:
+                filt_any = (g, x)
+                if not s2:
+                    filt = (g, x)
         if not neq_end:
             msgs.append('the skip loop is not guarded by `data != end`')
         if filt is None:
             msgs.append('the skip loop does not continue on `!type_is_compatible<TMember>(type)`')
-            # the predicate may still be called with the wrong sense: keep deciding what it delegates to
-            filt = next((n for n in fn.all_nodes() if n.get('k') == 'call' and n.get('q') == 'osmium::memory::detail::type_is_compatible'), None)
+            if filt_any is None:
+                # the predicate may still be called somewhere in the class: keep deciding what it delegates to
+                for h in fb.functions:
+                    if h.cls == ITIT and h.clsT == fn.clsT:
+                        for n in h.all_nodes():
+                            if n.get('k') == 'call' and n.get('q') == TIC:
+                                filt_any = (h, n)
+            filt = filt_any
         if filt is not None:
-            cal = fb.by_usr.get(filt.get('u'), [])
+            g, fc = filt
+            cal = fb.by_usr.get(fc.get('u'), [])
             targ = strip_const(cal[0].targs[0]) if cal and cal[0].targs else None
             if targ != tmember:
                 msgs.append('type_is_compatible is instantiated for %s, the iterator\'s member type is %s' % (targ, tmember))
-            a = fn.sn(filt['args'][0]) if filt.get('args') else None
+            a = g.sn(fc['args'][0]) if fc.get('args') else None
             if not (a is not None and a.get('k') == 'call' and a.get('q') == 'osmium::memory::Item::type' and
-                    xroot(fn, a['recv'], free_calls=False) == ('field', dataf)):
+                    xroot(g, a['recv'], free_calls=False) == ('field', dataf)):
                 msgs.append('the type tested is not the type() of the item at the data pointer')
-            for g in cal:
-                rets = [n for n in g.all_nodes() if n.get('k') == 'return' and 'sub' in n]
+            for h in cal:
+                rets = [n for n in h.all_nodes() if n.get('k') == 'return' and 'sub' in n]
                 ok = False
                 if len(rets) == 1:
-                    r = g.sn(rets[0]['sub'])
+                    r = h.sn(rets[0]['sub'])
                     eff = O._effective_compat_fn(targ) if targ else None
                     ok = (r is not None and r.get('k') == 'call' and name_of(r.get('q', '')) == 'is_compatible_to' and
                           eff is not None and r.get('u') == eff.usr and len(r.get('args', [])) == 1 and
-                          (xroot(g, r['args'][0]) or (None, None))[:2] == ('param', 0))
-                R.check(ok, 'I1-itemiterator-skip-predicate', 'osmium::memory::detail::type_is_compatible#delegates', g.site,
+                          (xroot(h, r['args'][0]) or (None, None))[:2] == ('param', 0))
+                R.check(ok, 'I1-itemiterator-skip-predicate', 'osmium::memory::detail::type_is_compatible#delegates', h.site,
                         'type_is_compatible<T>(t) must return T::is_compatible_to(t) for its own T (%s)' % targ)
         R.check(not msgs, 'I1-itemiterator-skip-predicate', key, fn.site, '; '.join(msgs))
-    # I2: constructor and operator++ call the filter
+    # I2: constructor and operator++ run the filter
     n_ctor = n_inc = 0
     for fn in fb.fns(ITIT + '::(ctor)'):
         if len(fn.params) != 2 or split_ref(fn.params[0]['tC'])[0].startswith(ITIT):
             continue
         n_ctor += 1
-        calls = [n['id'] for n in fn.all_nodes() if n.get('k') == 'call' and n.get('q') == ITIT + '::advance_to_next_item_of_right_type']
+        calls = carriers(fb, fn, enters_filter)
         R.check(bool(calls) and must_pass(fn, calls), 'I2-itemiterator-filters-on-every-move', ITIT + '::(ctor)(data, end)#filter', fn.site,
-                'the (data, end) constructor must call advance_to_next_item_of_right_type on every path, otherwise the first item '
-                'is delivered whatever its type')
+                'the (data, end) constructor must run the type filter (the member function that skips items for which '
+                'type_is_compatible<TMember> is false) on every path, otherwise the first item is delivered whatever its type')
     for fn in fb.fns(ITIT + '::operator++'):
         if fn.params:
             continue
         n_inc += 1
-        calls = [n['id'] for n in fn.all_nodes() if n.get('k') == 'call' and n.get('q') == ITIT + '::advance_to_next_item_of_right_type']
-        steps = []
-        for n in fn.all_nodes():
-            if n.get('k') == 'assign':
-                r = fn.sn(n['rhs'])
-                if r is not None and r.get('k') == 'call' and r.get('q') == 'osmium::memory::Item::next':
-                    steps.append(n['id'])
+        calls = carriers(fb, fn, enters_filter)
+        steps = [x for x in carriers(fb, fn, is_step) if x not in calls]
         ok = len(steps) == 1 and must_pass(fn, steps)
         msg = 'operator++ must step to the next item exactly once'
         if ok:
             w = normal_exit_avoiding(fn, steps[0], calls)
             ok = bool(calls) and w is None
-            msg = 'after stepping to the next item operator++ must call advance_to_next_item_of_right_type on every path'
+            msg = 'after stepping to the next item operator++ must run the type filter on every path'
         R.check(ok, 'I2-itemiterator-filters-on-every-move', ITIT + '::operator++()#filter', fn.site, msg)
     if n_ctor == 0 or n_inc == 0:
         R.broken('ItemIterator (data,end) constructor (%d) or prefix operator++ (%d) not instantiated' % (n_ctor, n_inc))
@@ -774,31 +1009,11 @@ def _cmp_parts(fn, nid):
 
 
 def _classify_disjunct(fn, nid):
-    """('eq', fieldA, fieldB) for iterator equality, ('ne', accessor name, fieldA, fieldB) for `a->f() != b->f()`."""
-    neg = False
-    n0 = fn.sn(nid)
-    hops = 0
-    while n0 is not None and n0.get('k') == 'unop' and n0.get('op') == '!' and hops < 4:
-        neg = not neg
-        nid = n0['sub']
-        n0 = fn.sn(nid)
-        hops += 1
-    p = _cmp_parts(fn, nid)
-    if p is None:
+    """classification of a condition that normalises to ONE atom (negations, named locals, boolean helpers expanded)"""
+    atoms = _norm_disjuncts(fn.fb, _Cx(fn), nid)
+    if len(atoms) != 1:
         return None
-    op, l, r = p
-    if neg:
-        op = '!=' if op == '==' else '=='
-    fl, fr = _this_field(fn, l), _this_field(fn, r)
-    if fl and fr:
-        return ('eq' if op == '==' else 'neq-iter', fl, fr)
-    a, b = fn.sn(l), fn.sn(r)
-    if (a is not None and b is not None and a.get('k') == 'call' and b.get('k') == 'call' and 'q' in a and a.get('q') == b.get('q')
-            and not a.get('args') and not b.get('args')):
-        ra, rb = xroot(fn, l, free_calls=False), xroot(fn, r, free_calls=False)
-        if ra and rb and ra[0] == rb[0] == 'field':
-            return ('ne' if op == '!=' else 'eq-acc', name_of(a['q']), ra[1], rb[1])
-    return None
+    return _classify_atom(*atoms[0])
 
 
 def _cond_expr(fn, nid):
@@ -813,6 +1028,107 @@ def _cond_expr(fn, nid):
     return nid
 
 
+class _Cx:
+    """an expression context: a function body plus the binding of its parameters to caller expressions (inlined helper)"""
+    __slots__ = ('fn', 'env')
+
+    def __init__(self, fn, env=None):
+        self.fn = fn
+        self.env = env or {}
+
+
+def _cx_exact_field(cx, nid):
+    """name of the this-member the expression IS (looking through helper parameters bound to caller expressions)"""
+    n = cx.fn.sn(nid)
+    if n is None:
+        return None
+    if n.get('k') == 'member' and cx.fn.is_this_member(nid):
+        return n['name']
+    if n.get('k') == 'var' and n.get('d') in cx.env:
+        c2, a2 = cx.env[n['d']]
+        return _cx_exact_field(c2, a2)
+    return None
+
+
+def _cx_root_field(cx, nid):
+    """name of the this-member at the root of an access chain (it->f(), *it, ...), through helper parameters"""
+    r = xroot(cx.fn, nid, free_calls=False)
+    if r is None:
+        return None
+    if r[0] == 'field':
+        return r[1]
+    if r[0] == 'param':
+        d = cx.fn.params[r[1]]['d']
+        if d in cx.env:
+            c2, a2 = cx.env[d]
+            return _cx_root_field(c2, a2)
+    return None
+
+
+def _norm_disjuncts(fb, cx, nid, neg=False, depth=0):
+    """The condition as an ordered list of atoms (cx, node id, negated) whose disjunction it is: `||` chains, `!` and
+    De Morgan on negated `&&`, named bool locals and calls of boolean helper functions (single return) are expanded;
+    evaluation order (short circuit) is preserved."""
+    fn = cx.fn
+    n = fn.sn(nid)
+    if n is None or depth > 12:
+        return [(cx, nid, neg)]
+    k = n.get('k')
+    if k == 'unop' and n.get('op') == '!':
+        return _norm_disjuncts(fb, cx, n['sub'], not neg, depth + 1)
+    if k == 'binop' and ((n['op'] == '||' and not neg) or (n['op'] == '&&' and neg)):
+        return _norm_disjuncts(fb, cx, n['lhs'], neg, depth + 1) + _norm_disjuncts(fb, cx, n['rhs'], neg, depth + 1)
+    if k == 'var' and n.get('vk') == 'local':
+        init = _single_init(fn, n['d'])
+        if init is not None:
+            return _norm_disjuncts(fb, cx, init, neg, depth + 1)
+    if k == 'var' and n.get('d') in cx.env:
+        c2, a2 = cx.env[n['d']]
+        return _norm_disjuncts(fb, c2, a2, neg, depth + 1)
+    if k == 'call' and 'u' in n and n.get('op') is None:
+        for g in fb.by_usr.get(n['u'], []):
+            if not g.has_cfg or len(g.params) != len(n.get('args', [])) or g.retC not in ('bool', '_Bool'):
+                continue
+            rets = [x for x in g.all_nodes() if x.get('k') == 'return' and 'sub' in x]
+            if len(rets) != 1 or g.loops:
+                continue
+            env = {p['d']: (cx, a) for p, a in zip(g.params, n['args'])}
+            if n.get('recv') is None or (xroot(fn, n['recv'], free_calls=False) or (None,))[0] != 'this':
+                if not g.static:
+                    continue  # a member helper on another object: its fields are not ours
+            return _norm_disjuncts(fb, _Cx(g, env), rets[0]['sub'], neg, depth + 1)
+    return [(cx, nid, neg)]
+
+
+def enum_paths_safe(g):
+    try:
+        return enum_paths(g, g.entry)
+    except Shape:
+        return []
+
+
+def _classify_atom(cx, nid, neg):
+    """('eq'|'neq-iter', fieldA, fieldB) for iterator (in)equality, ('ne'|'eq-acc', accessor, fieldA, fieldB) for
+    `a->f() != b->f()` / `==`; None for anything else."""
+    fn = cx.fn
+    p = _cmp_parts(fn, nid)
+    if p is None:
+        return None
+    op, l, r = p
+    if neg:
+        op = '!=' if op == '==' else '=='
+    fl, fr = _cx_exact_field(cx, l), _cx_exact_field(cx, r)
+    if fl and fr:
+        return ('eq' if op == '==' else 'neq-iter', fl, fr)
+    a, b = fn.sn(l), fn.sn(r)
+    if (a is not None and b is not None and a.get('k') == 'call' and b.get('k') == 'call' and 'q' in a and a.get('q') == b.get('q')
+            and not a.get('args') and not b.get('args') and a.get('recv') is not None and b.get('recv') is not None):
+        ra, rb = _cx_root_field(cx, a['recv']), _cx_root_field(cx, b['recv'])
+        if ra and rb:
+            return ('ne' if op == '!=' else 'eq-acc', name_of(a['q']), ra, rb)
+    return None
+
+
 def _increments_of(fn, pred):
     out = []
     for n in fn.all_nodes():
@@ -823,24 +1139,113 @@ def _increments_of(fn, pred):
     return out
 
 
+def _x2_check(fb, R, top, fn, X, C, Y, E, k0, depth):
+    """X2 on function fn (operator++ itself, or the private helper it unconditionally delegates to)."""
+    def assigns(f, src):
+        return lambda g, n: any(x is n and xroot(g, rhs) == ('field', src) for (x, rhs) in _field_assigns(g, f))
+
+    def any_assign(f):
+        return lambda g, n: any(x is n for (x, _r) in _field_assigns(g, f))
+
+    def is_inc(g, n):
+        if n.get('k') == 'call' and n.get('op') == '++' and n.get('recv') is not None:
+            return _this_field(g, n['recv']) == Y
+        return n.get('k') == 'unop' and n.get('op') == '++' and _this_field(g, n['sub']) == Y
+
+    direct = [n for n in fn.all_nodes() if any_assign(X)(fn, n) or any_assign(C)(fn, n) or is_inc(fn, n)]
+    if not direct and depth < 3:
+        # everything lives in a helper: follow the (single, unconditional) delegation
+        hs = [x for x in set(carriers(fb, fn, any_assign(C), mode='may') + carriers(fb, fn, is_inc, mode='may'))]
+        if len(hs) == 1 and must_pass(fn, hs):
+            for g in fb.by_usr.get(fn.nodes[hs[0]].get('u'), []):
+                if g.clsT == fn.clsT:
+                    return _x2_check(fb, R, top, g, X, C, Y, E, k0, depth + 1)
+    ax = carriers(fb, fn, assigns(X, C))
+    ac = carriers(fb, fn, assigns(C, Y))
+    all_x = carriers(fb, fn, any_assign(X), mode='may')
+    all_c = carriers(fb, fn, any_assign(C), mode='may')
+    ay = carriers(fb, fn, any_assign(Y), mode='may')
+    ae = carriers(fb, fn, any_assign(E), mode='may')
+    msgs = []
+    if len(ax) != 1 or len(all_x) != 1:
+        msgs.append('%s must be assigned exactly once, from %s' % (X, C))
+    if len(ac) != 1 or len(all_c) != 1:
+        msgs.append('%s must be assigned exactly once, from %s' % (C, Y))
+    if ay or ae:
+        msgs.append('%s / %s must not be assigned' % (Y, E))
+    if not msgs:
+        if ax[0] == ac[0] or not fn.elem_dominates(ax[0], ac[0]):
+            msgs.append('`%s = %s` must execute before `%s = %s` (otherwise prev receives the new curr)' % (X, C, C, Y))
+        if not (must_pass(fn, [ax[0]]) and must_pass(fn, [ac[0]])):
+            msgs.append('the shift is skipped on some path')
+    R.check(not msgs, 'X2-increment-shifts-prev-curr-next', k0 + '#shift', top.site, '; '.join(msgs))
+    # the guarded advance: in fn itself or in a helper that fn calls unconditionally after the shift
+    host, after = fn, (ac[0] if len(ac) == 1 else None)
+    incs = [n for n in fn.all_nodes() if is_inc(fn, n)]
+    msgs = []
+    hops = 0
+    while not incs and hops < 3:
+        hops += 1
+        hs = carriers(fb, host, is_inc, mode='may')
+        if len(hs) != 1:
+            break
+        if not must_pass(host, hs) or (after is not None and not host.elem_dominates(after, hs[0])):
+            msgs.append('the advance of %s is not reached unconditionally after `%s = %s`' % (Y, C, Y))
+        g = next((g for g in fb.by_usr.get(host.nodes[hs[0]].get('u'), []) if g.clsT == host.clsT), None)
+        if g is None:
+            break
+        host, after = g, None
+        incs = [n for n in host.all_nodes() if is_inc(host, n)]
+    if len(incs) != 1:
+        msgs.append('%s must be advanced at exactly one place (found %d)' % (Y, len(incs)))
+    else:
+        inc = incs[0]
+        g_ok = False
+        for (c, sense, _b) in guards_of(host, inc['id']):
+            d = _classify_disjunct(host, c)
+            if d is not None and d[0] in ('eq', 'neq-iter') and set(d[1:]) == {Y, E} and ((d[0] == 'neq-iter') == bool(sense)):
+                g_ok = True
+        if not g_ok:
+            msgs.append('`++%s` must be guarded by `%s != %s`' % (Y, Y, E))
+        if after is not None and not host.elem_dominates(after, inc['id']):
+            msgs.append('`++%s` must come after `%s = %s`' % (Y, C, Y))
+
+        def edge_ok(b, idx, s, fn=host):
+            blk = fn.blocks[b]
+            if 'cond' in blk and len(blk['succs']) == 2:
+                d = _classify_disjunct(fn, blk['cond'])
+                if d is not None and d[0] in ('eq', 'neq-iter') and set(d[1:]) == {Y, E}:
+                    at_end_edge = 0 if d[0] == 'eq' else 1
+                    if idx == at_end_edge:
+                        return False
+            return True
+        if normal_exit_avoiding(host, host.entry, [inc['id']], from_block_start=True, edge_ok=edge_ok) is not None:
+            msgs.append('a path on which %s is not at the end leaves without advancing %s' % (Y, Y))
+    R.check(not msgs, 'X2-increment-advances-next-unless-at-end', k0 + '#advance-guard', top.site, '; '.join(msgs))
+
+
 def diffiterator_rules(fb, R, O):
     roles = {}
-    sds = fb.fns(DIT + '::set_diff')
+    def builds_diff(g, n):
+        return n.get('k') == 'construct' and n.get('q') == DOBJ + '::(ctor)' and len(n.get('args', [])) == 3
+
+    sds = [f for f in fb.functions if f.cls == DIT and not f.is_lambda and any(builds_diff(f, n) for n in f.all_nodes())]
     if not sds:
-        R.broken('DiffIterator::set_diff not instantiated')
+        R.broken('no member function of DiffIterator builds a DiffObject{prev, curr, next}')
         return
     for fn in sds:
-        k0 = DIT + '::set_diff'
+        k0 = '%s::%s' % (DIT, fn.name)
         cons = [n for n in fn.all_nodes() if n.get('k') == 'construct' and n.get('q') == DOBJ + '::(ctor)' and len(n.get('args', [])) == 3]
         if len(cons) != 1:
             R.broken('%s: expected one DiffObject{prev, curr, next} construction, found %d' % (fn.full, len(cons)))
             continue
         con = cons[0]
         subs = [_deref_sub(fn, a) for a in con['args']]
-        C = _this_field(fn, subs[1]) if subs[1] is not None else None
+        c_n = resolve_alias(fn, subs[1]) if subs[1] is not None else None
+        C = c_n['name'] if c_n is not None and c_n.get('k') == 'member' and fn.is_this_member(c_n['id']) else None
         sides = []
         for i in (0, 2):
-            s = fn.sn(subs[i]) if subs[i] is not None else None
+            s = resolve_alias(fn, subs[i]) if subs[i] is not None else None
             if s is not None and s.get('k') == 'condop':
                 t, e = _this_field(fn, s['then']), _this_field(fn, s['else'])
                 sides.append((s['cond'], t, e))
@@ -859,8 +1264,8 @@ def diffiterator_rules(fb, R, O):
                 continue
             sides = [(sides[0][0], C, others[0]), (sides[1][0], C, others[1])]
         X, Y = sides[0][2], sides[1][2]
-        dp = [_classify_disjunct(fn, d) for d in _disjuncts(fn, _cond_expr(fn, sides[0][0]))]
-        dn = [_classify_disjunct(fn, d) for d in _disjuncts(fn, _cond_expr(fn, sides[1][0]))]
+        dp = [_classify_atom(*a) for a in _norm_disjuncts(fb, _Cx(fn), sides[0][0])]
+        dn = [_classify_atom(*a) for a in _norm_disjuncts(fb, _Cx(fn), sides[1][0])]
         if None in dp or None in dn:
             R.broken('%s: a disjunct of the prev/next condition is not an iterator or accessor comparison' % fn.full)
             continue
@@ -911,48 +1316,7 @@ def diffiterator_rules(fb, R, O):
         n_inc += 1
         X, C, Y, E = roles[fn.clsT]
         k0 = DIT + '::operator++()'
-        ax, ac, ay, ae = (_field_assigns(fn, f) for f in (X, C, Y, E))
-        msgs = []
-        if len(ax) != 1 or xroot(fn, ax[0][1]) != ('field', C):
-            msgs.append('%s must be assigned exactly once, from %s' % (X, C))
-        if len(ac) != 1 or xroot(fn, ac[0][1]) != ('field', Y):
-            msgs.append('%s must be assigned exactly once, from %s' % (C, Y))
-        if ay or ae:
-            msgs.append('%s / %s must not be assigned' % (Y, E))
-        if not msgs:
-            if not fn.elem_dominates(ax[0][0]['id'], ac[0][0]['id']):
-                msgs.append('`%s = %s` must execute before `%s = %s` (otherwise prev receives the new curr)' % (X, C, C, Y))
-            if not (must_pass(fn, [ax[0][0]['id']]) and must_pass(fn, [ac[0][0]['id']])):
-                msgs.append('the shift is skipped on some path')
-        R.check(not msgs, 'X2-increment-shifts-prev-curr-next', k0 + '#shift', fn.site, '; '.join(msgs))
-        incs = _increments_of(fn, lambda x: _this_field(fn, x) == Y)
-        msgs = []
-        if len(incs) != 1:
-            msgs.append('%s must be advanced at exactly one place (found %d)' % (Y, len(incs)))
-        else:
-            inc = incs[0]
-            g_ok = False
-            for (c, sense, _b) in guards_of(fn, inc['id']):
-                d = _classify_disjunct(fn, c)
-                if d is not None and d[0] in ('eq', 'neq-iter') and set(d[1:]) == {Y, E} and ((d[0] == 'neq-iter') == bool(sense)):
-                    g_ok = True
-            if not g_ok:
-                msgs.append('`++%s` must be guarded by `%s != %s`' % (Y, Y, E))
-            if len(ac) == 1 and not fn.elem_dominates(ac[0][0]['id'], inc['id']):
-                msgs.append('`++%s` must come after `%s = %s`' % (Y, C, Y))
-            # on the not-at-end edge the increment must happen
-            def edge_ok(b, idx, s, fn=fn):
-                blk = fn.blocks[b]
-                if 'cond' in blk and len(blk['succs']) == 2:
-                    d = _classify_disjunct(fn, blk['cond'])
-                    if d is not None and d[0] in ('eq', 'neq-iter') and set(d[1:]) == {Y, E}:
-                        at_end_edge = 0 if d[0] == 'eq' else 1
-                        if idx == at_end_edge:
-                            return False
-                return True
-            if normal_exit_avoiding(fn, fn.entry, [inc['id']], from_block_start=True, edge_ok=edge_ok) is not None:
-                msgs.append('a path on which %s is not at the end leaves operator++ without advancing %s' % (Y, Y))
-        R.check(not msgs, 'X2-increment-advances-next-unless-at-end', k0 + '#advance-guard', fn.site, '; '.join(msgs))
+        _x2_check(fb, R, fn, fn, X, C, Y, E, k0, 0)
     if n_inc == 0:
         R.broken('DiffIterator::operator++() not instantiated')
 
@@ -992,6 +1356,31 @@ def diffiterator_rules(fb, R, O):
                     good = (ends == {('param', 0), ('param', 1)} and
                             (xroot(fn, t_same) or (None, None))[:2] == ('param', 0) and incs[0]['id'] not in fn.subtree(t_same) and
                             incs[0]['id'] in fn.subtree(e_same))
+        if not good and n is not None and not incs:
+            # equivalent form: next starts as a copy of begin and is advanced in the constructor body unless at the end
+            if (xroot(fn, n['init']) or (None, None))[:2] == ('param', 0):
+                yinc = _increments_of(fn, lambda x: _this_field(fn, x) == Y)
+                if len(yinc) == 1:
+                    g_ok = False
+                    for (c, sense, _b) in guards_of(fn, yinc[0]['id']):
+                        p = _cmp_parts(fn, c)
+                        if p is None or ((p[0] == '!=') != bool(sense)):
+                            continue
+                        ends = set()
+                        for side in (p[1], p[2]):
+                            f = _this_field(fn, side)
+                            ends.add(('field', f) if f else (xroot(fn, side) or (None, None))[:2])
+                        if ends in ({('field', Y), ('field', E)}, {('param', 0), ('param', 1)}, {('field', Y), ('param', 1)}):
+                            g_ok = True
+
+                    def edge_ok(b, idx, s, fn=fn):
+                        blk = fn.blocks[b]
+                        if 'cond' in blk and len(blk['succs']) == 2:
+                            p = _cmp_parts(fn, blk['cond'])
+                            if p is not None:
+                                return idx != (0 if p[0] == '==' else 1)
+                        return True
+                    good = g_ok and normal_exit_avoiding(fn, fn.entry, [yinc[0]['id']], from_block_start=True, edge_ok=edge_ok) is None
         if not good:
             msgs.append('%s must be initialised with `begin == end ? begin : ++begin`' % Y)
         R.check(not msgs, 'X3-constructor-snapshot-order', DIT + '::(ctor)(begin, end)#init', fn.site, '; '.join(msgs))
@@ -1003,11 +1392,11 @@ def diffiterator_rules(fb, R, O):
         for fn in fb.fns(DIT + '::' + opn):
             if fn.params:
                 continue
-            calls = [n['id'] for n in fn.all_nodes() if n.get('k') == 'call' and n.get('q') == DIT + '::set_diff']
+            calls = carriers(fb, fn, builds_diff)
             rets = [n['id'] for n in fn.all_nodes() if n.get('k') == 'return']
             ok = bool(calls) and must_pass(fn, calls) and all(any(fn.elem_dominates(c, r) for c in calls) for r in rets)
             R.check(ok, 'X4-deref-refreshes-diff', '%s::%s#set_diff' % (DIT, opn), fn.site,
-                    '%s must call set_diff() before returning the cached DiffObject (otherwise the previous position\'s object is returned)' % opn)
+                    '%s must rebuild the DiffObject (set_diff) before returning the cached one (otherwise the previous position\'s object is returned)' % opn)
     for fn in fb.fns(DIT + '::operator=='):
         if fn.clsT not in roles or len(fn.params) != 1:
             continue
@@ -1130,7 +1519,8 @@ def apply_diff_rules(fb, R, O):
                     msgs.append('expected exactly one dispatcher call inside one loop')
                 else:
                     c = rec[0]
-                    ds = _deref_sub(fn, c['args'][0]) if c.get('args') else None
+                    a0 = resolve_alias(fn, c['args'][0]) if c.get('args') else None
+                    ds = _deref_sub(fn, a0['id']) if a0 is not None else None
                     if ds is None or not isvar(ds, dit) or _roots(fn, c['args'][1:]) != [('param', i) for i in range(2, 2 + k)]:
                         msgs.append('the dispatcher must be called with (*dit, handlers in pack order); found %s' % fn.expr(c['id']))
                     g_ok = False
@@ -1167,7 +1557,7 @@ def apply_diff_rules(fb, R, O):
                 else:
                     nm = []
                     for a in args[:2]:
-                        x = fn.sn(a)
+                        x = fn.sn(_through_locals(fn, a))
                         hops = 0
                         while x is not None and x.get('k') == 'construct' and len(x.get('args', [])) == 1 and hops < 5:
                             x = fn.sn(x['args'][0])
@@ -1411,6 +1801,36 @@ def _tuple_arity(t):
 INIT = 'osmium::io::InputIterator'
 
 
+def _is_default_reset(g, n, f):
+    """node n of function g puts member f into its default-constructed state"""
+    k = n.get('k')
+    if k == 'call' and name_of(n.get('q', '')) == 'reset' and n.get('recv') is not None and not n.get('args'):
+        return g.is_this_member(n['recv'], f)
+    rhs = None
+    if k == 'assign' and n.get('op', '=') == '=':
+        l = g.sn(n['lhs'])
+        if l is not None and l.get('k') == 'member' and g.is_this_member(n['lhs'], f):
+            rhs = n['rhs']
+    elif k == 'call' and n.get('op') == '=' and n.get('recv') is not None and n.get('args') and g.is_this_member(n['recv'], f):
+        rhs = n['args'][0]
+    if rhs is None:
+        return False
+    r = g.sn(rhs)
+    hops = 0
+    while r is not None and r.get('k') == 'construct' and len(r.get('args', [])) == 1 and hops < 4:
+        r = g.sn(r['args'][0])  # copy / move of a temporary
+        hops += 1
+    if r is None:
+        return False
+    if r.get('k') == 'lit' and r.get('null'):
+        return True
+    if r.get('k') == 'construct' and not r.get('args'):
+        return True
+    if r.get('k') == 'initlist' and not r.get('args'):
+        return True
+    return False
+
+
 def inputiterator_rules(fb, R, O):
     eqs = [f for f in fb.fns(INIT + '::operator==') if len(f.params) == 1]
     ups = fb.fns(INIT + '::update_buffer')
@@ -1429,27 +1849,25 @@ def inputiterator_rules(fb, R, O):
         cmp_fields = compared.get(fn.clsT)
         if not cmp_fields:
             continue
-        rets = [n for n in fn.all_nodes() if n.get('k') == 'return']
-        # early return = end of input branch: every compared member is reset on the way
+        # The end iterator is the default-constructed one.  A path that resets one compared member to its default state
+        # (null / reset() / value-initialised temporary) turns the iterator into the end iterator, so it must reset
+        # every compared member before the function is left; and each compared member must have such a reset at all.
+        # Resets inside extracted private helpers count at the helper call (body treated as inlined).
         msgs = []
-        if len(fn.loops) != 1:
-            R.broken('%s: expected one loop' % fn.full)
-            continue
-        inl = [r for r in rets if fn.in_range(r['id'], fn.loops[0]['b'], fn.loops[0]['e'])]
-        if not inl:
-            msgs.append('no end-of-input return inside the read loop')
-        for r in inl:
-            for f in sorted(cmp_fields):
-                writes = {n['id'] for (n, _rhs) in _field_assigns(fn, f)}
-                for n in fn.all_nodes():
-                    if n.get('k') == 'call' and name_of(n.get('q', '')) == 'reset' and n.get('recv') is not None and fn.is_this_member(n['recv'], f):
-                        writes.add(n['id'])
-                # the reset must belong to the end-of-input branch: it precedes the return and can leave the function only
-                # through that return (the assignment at the top of the read loop can also leave through the loop exit)
-                good = [w for w in writes if fn.elem_dominates(w, r['id']) and normal_exit_avoiding(fn, w, [r['id']]) is None]
-                if not good:
-                    msgs.append('%s is compared by operator== but not reset before the end-of-input return (the iterator would never '
-                                'compare equal to the end iterator)' % f)
+        resets = {f: carriers(fb, fn, lambda g, n, f=f: _is_default_reset(g, n, f)) for f in sorted(cmp_fields)}
+        for f in sorted(cmp_fields):
+            if not resets[f]:
+                msgs.append('%s is compared by operator== but update_buffer never resets it at the end of the input (the iterator '
+                            'would never compare equal to the end iterator)' % f)
+        for f in sorted(cmp_fields):
+            for w in resets[f]:
+                for f2 in sorted(cmp_fields):
+                    if f2 == f or not resets[f2]:
+                        continue
+                    before = any(w2 == w or fn.elem_dominates(w2, w) for w2 in resets[f2])
+                    if not before and normal_exit_avoiding(fn, w, resets[f2]) is not None:
+                        msgs.append('a path resets %s but leaves update_buffer without resetting %s' % (f, f2))
+        msgs = sorted(set(msgs))
         R.check(not msgs, 'R1-inputiterator-end-state', INIT + '::update_buffer#end-of-input', fn.site, '; '.join(msgs))
     for fn in incs:
         ups_c = [n for n in fn.all_nodes() if n.get('k') == 'call' and n.get('q') == INIT + '::update_buffer']
